@@ -224,7 +224,7 @@ theorem handleAction_step (w : World) (i : Nat) (a : Action) (h19 : w.fix.p19 = 
             rfl
           show PK.Step i w.pk (((({ w with heap := h } : World).modClient i (fun c => { c with perms := s })).enq i .permChanged).pk)
           rw [hpk]
-          exact PK.Step.setPerms w.pk g c.perms (h, s) hcl (fun hw => permEdit_ok _ _ _ _ _ hw hed)
+          exact PK.Step.setPerms w.pk g c.perms (h, s) hcl (fun hw => permEdit_ok _ _ _ _ _ _ hw hed)
 
 /-- **one iteration of the action loop is a transition of the skeleton** (with the repair P19) -/
 theorem stepAction_step (w : World) (i : Nat) (h19 : w.fix.p19 = true) : PK.Step i w.pk (stepAction w i).1.pk := by
